@@ -185,8 +185,8 @@ func (x *Exec) isSpecFunc(fn *ssa.Function) bool {
 		return false
 	}
 	file := filepath.Base(x.Prog.Fset.Position(fn.Pos()).Filename)
-	if !strings.HasPrefix(file, "zz_verif_spec") || strings.HasPrefix(fn.Name(), "verifLemma_") {
-		return false
+	if !strings.HasPrefix(file, "zz_verif_spec") || strings.HasPrefix(fn.Name(), "verif") {
+		return false // verifLemma_* and verifHelper_* are executable code, not specifications
 	}
 	// helpers that allocate (build values for lemmas) are ordinary code, executed in the caller's state
 	for _, b := range fn.Blocks {
@@ -201,6 +201,9 @@ func (x *Exec) isSpecFunc(fn *ssa.Function) bool {
 			case *ssa.Call:
 				if bi, ok := i.Call.Value.(*ssa.Builtin); ok && (bi.Name() == "append" || bi.Name() == "copy") {
 					return false
+				}
+				if callee := i.Call.StaticCallee(); callee != nil && callee.Pkg != nil && callee.Pkg.Pkg.Path() == verifrtPath {
+					return false // a function that asserts or assumes is lemma code
 				}
 			}
 		}
